@@ -1,0 +1,47 @@
+//go:build verif && (verif_all || verif_c07)
+// +build verif
+// +build verif_all verif_c07
+
+package gocql
+
+// Verification hooks for C07 (frames are written whole), vectored-write tier: the real writers of a
+// connection built over a socket supplied by the harness (a loopback *net.TCPConn, so that the coalescer's
+// net.Buffers.WriteTo takes the writev path). Add-only; nothing here is reachable without the build tags.
+
+import (
+	"context"
+	"io"
+	"time"
+)
+
+// VerifDeadlineWriter is what the writers need from the socket (conn.go: deadlineWriter).
+type VerifDeadlineWriter interface {
+	SetWriteDeadline(time.Time) error
+	io.Writer
+}
+
+// VerifWriter is a connection's writer: deadlineContextWriter (coalesce == 0) built like NewConn builds it,
+// or writeCoalescer built by newWriteCoalescer like Conn.init does (real flush timer).
+type VerifWriter struct {
+	w    contextWriter
+	quit chan struct{}
+}
+
+func VerifNewWriter(conn VerifDeadlineWriter, coalesce, writeTimeout time.Duration) *VerifWriter {
+	quit := make(chan struct{})
+	v := &VerifWriter{quit: quit}
+	if coalesce > 0 {
+		v.w = newWriteCoalescer(conn, writeTimeout, coalesce, quit)
+	} else {
+		v.w = &deadlineContextWriter{w: conn, timeout: writeTimeout, semaphore: make(chan struct{}, 1), quit: quit}
+	}
+	return v
+}
+
+// WriteContext is contextWriter.writeContext: what Conn.exec calls with the serialised frame.
+func (v *VerifWriter) WriteContext(ctx context.Context, p []byte) (int, error) {
+	return v.w.writeContext(ctx, p)
+}
+
+// Quit closes the quit channel (the connection was closed).
+func (v *VerifWriter) Quit() { close(v.quit) }
